@@ -343,6 +343,7 @@ def check(ctx: Ctx):
     io.check_sequence_keys(ctx, f"{EM}.EmulsionTimeCourse.to_file", f"{EM}.EmulsionTimeCourse.from_file", "_write_hdf_dataset", "EmulsionTimeCourse")
     io.check_dataset_pair(ctx, f"{EM}.Emulsion._write_hdf_dataset", f"{EM}.Emulsion._from_hdf_dataset", "Emulsion")
     io.check_timecourse_time(ctx)
+    io.check_pair_iteration(ctx)
     io.check_file_modes(ctx)
     # droplets located without refinement carry an undetermined (NaN) width: the file the tracker writes must read back
     io.check_nan_width(ctx)
@@ -355,6 +356,9 @@ def check(ctx: Ctx):
             c15.check_split(sub, fi_, ifn_)
     ctx.findings.extend(f for f in sub.findings if f.rule == "PARMAP")
     ctx.functions |= sub.functions
+    from ..rules import collections as _col
+
+    _col.check_instance_containers(ctx, ("LengthScaleTracker", "EmulsionTimeCourse"), rule="OWN")
     ctx.expect("PARMAP", 6)
     ctx.expect("FORWARD", 15)
     ctx.expect("PIPE", 7)
@@ -362,6 +366,6 @@ def check(ctx: Ctx):
     ctx.expect("TRYGUARD", 1)
     ctx.expect("SAMEVALUE", 1)
     ctx.expect("PAIR", 5)
-    ctx.expect("IOAGREE", 6)
+    ctx.expect("IOAGREE", 8)
     ctx.trust("pde.visualization.plotting.extract_field is deterministic", "TrackerBase calls handle(field, t) once per interrupt with the solver's time")
     ctx.assume("solver-driven runs are not analysed")
